@@ -306,20 +306,44 @@ Theorem C02_json_ascii : forall j d, floats_ascii j -> json_dump j = Ok d -> For
 Proof. exact WriterCanonFacts.C02_json_ascii. Qed.
 Print Assumptions C02_json_ascii.
 
-(* the whole of write_meta(dict): canonical JSON, encoded in the effective encoding, LF-terminated *)
+(* the whole of write_meta(dict): canonical JSON, encoded in the effective encoding, LF-terminated.
+   RESTATED for the fixed write_meta (`if not (encoding or self._cur_encoding): content = content.encode('ascii')`):
+   the previous statement concluded for every accepted call that the effective encoding is a str [e]
+   (`eff_enc s enc true = Ok (WStr e)`) whose codec encodes the JSON text.  That is false of the fixed writer
+   (C02_meta_call_old_refuted below): with no encoding in force, e.g. DiffXWriter(encoding=None).write_meta({..}),
+   the call is now accepted and writes the pure-ASCII JSON bytes as they are, terminated by the ASCII LF.
+   True is the case split on the truthiness of the effective encoding [ce]: truthy = the old conclusion. *)
 Theorem C02_meta_call : forall s kv enc fmt s',
   do_call (WriteMeta (WDict (JObj kv)) enc fmt) s = (s', Ok tt) ->
-  exists d e eb cb newline fmtv h,
+  exists d ce body fmtv h,
     kv <> [] /\ json_dump (JObj kv) = Ok d /\
-    eff_enc s enc true = Ok (WStr e) /\ c_enc ascii e = Some eb /\
-    py_encode (ascii_text d) eb = Ok cb /\
-    get_newline_for_type GenText.le_unix (Some eb) = Ok newline /\
-    let body := add_newline newline cb in
+    eff_enc s enc true = Ok ce /\
+    ((wv_truthy ce = true /\
+      exists e eb cb newline,
+        ce = WStr e /\ c_enc ascii e = Some eb /\
+        py_encode (ascii_text d) eb = Ok cb /\
+        get_newline_for_type GenText.le_unix (Some eb) = Ok newline /\
+        body = add_newline newline cb)
+     \/
+     (wv_truthy ce = false /\
+      exists newline,
+        get_newline_for_type GenText.le_unix None = Ok newline /\
+        body = add_newline newline d)) /\
     render_header (build_id (cur_level s) (B "meta"))
       (content_opts body (WStr (ascii_text GenText.le_unix)) enc WNone false [(B "format", fmtv)]) = Ok h /\
     w_out s' = w_out s ++ h ++ body.
 Proof. exact WriterCanonFacts.C02_meta_call. Qed.
 Print Assumptions C02_meta_call.
+
+(* the previous statement is refuted: a reachable state and an accepted write_meta with effective encoding None *)
+Theorem C02_meta_call_old_refuted :
+  exists s kv enc fmt s',
+    WriterFacts.reachable s /\
+    do_call (WriteMeta (WDict (JObj kv)) enc fmt) s = (s', Ok tt) /\
+    eff_enc s enc true = Ok WNone /\
+    ~ (exists e, eff_enc s enc true = Ok (WStr e)).
+Proof. exact WriterCanonFacts.C02_meta_call_old_refuted. Qed.
+Print Assumptions C02_meta_call_old_refuted.
 
 Example C02_json_ex : json_dump ex_json = Ok ex_json_bytes /\ floats_ascii ex_json.
 Proof. split; [vm_compute; reflexivity|exact ex_floats_ascii]. Qed.
